@@ -271,6 +271,23 @@ def check_value(case):
                 out.append((f"C03|decoded-value-differs|{sig}", {"case": case, "got": repr(back.get())[:300], "want": repr(want_get)[:300]}))
             elif back.encode() != body:
                 out.append((f"C03|reencode-differs|{sig}", {"case": case}))
+            # second use of an object: one that held the function's default value is given this value with set(): same bytes as a fresh one
+            if case.get("devs"):
+                try:
+                    used = cls(to_input(default_spec(tree), plain and plain_ok(default_spec(tree))))
+                    used.set(to_input(spec, plain))
+                    if used.encode() != body:
+                        out.append((f"C03|value-set-into-a-used-object-differs-from-a-fresh-one|{mode}|{kind}|{_dev_leaf(spec, case)}",
+                                    {"case": case, "got": bytes(used.encode())[:64].hex(), "want": bytes(body)[:64].hex()}))
+                    # and the other way round: an object that held this value is given the default value
+                    dflt = to_input(default_spec(tree), plain and plain_ok(default_spec(tree)))
+                    fresh = cls(dflt).encode()
+                    obj.set(dflt)
+                    if obj.encode() != fresh:
+                        out.append((f"C03|default-set-into-a-used-object-differs-from-a-fresh-one|{mode}|{kind}|{_dev_leaf(spec, case)}",
+                                    {"case": case, "got": bytes(obj.encode())[:64].hex(), "want": bytes(fresh)[:64].hex()}))
+                except Exception as exc:  # noqa: BLE001
+                    out.append((f"C03|set-into-a-used-object-raises|{mode}|{kind}|{_dev_leaf(spec, case)}", {"case": case, "error": repr(exc)[:200]}))
         except Exception as exc:  # noqa: BLE001
             out.append((f"C03|roundtrip-raises|{mode}|{kind}|{_dev_leaf(spec, case)}", {"case": case, "error": repr(exc)[:300], "value": repr(want_get)[:200]}))
     return {"v": out, "nt": bool(case.get("devs")), "cnt": {"values": len(modes)}}
